@@ -25,12 +25,15 @@ package main
 
 import (
 	"context"
+	"encoding/json"
 	"fmt"
 	"math/rand"
 	"reflect"
+	"regexp"
 	"sort"
 	"strings"
 
+	"gorm.io/driver/sqlite"
 	"gorm.io/gorm"
 	"gorm.io/gorm/schema"
 )
@@ -381,4 +384,227 @@ func c20OthersKept(db *gorm.DB, rec *Recorder, before map[string]c20TableDump) (
 		}
 	}
 	return "", "", ""
+}
+
+// ---- correspondence: ReorderModels / relation constraints under the configuration switches ----------------------------
+//
+// Real side: migrator.Migrator.ReorderModels(values, autoAdd) of a handle opened with the generated configuration, and (for
+// autoAdd) a real AutoMigrate(values...) on a fresh database whose CREATE TABLE statements give the tables created and the
+// FOREIGN KEY constraints each carries.  Model side: Gorm.Mig.reorderModelsOpt / fksOpt over what the harness reads off the
+// parsed schemas (relation kind, target table, IgnoreMigration, ParseConstraint() result, join table).  Relationships are
+// iterated in Go map order, so results are compared as sets (the order under the default configuration is tied by mig.reorder).
+
+var c20CreateRe = regexp.MustCompile("(?is)^\\s*CREATE TABLE `([^`]+)`")
+var c20FKNameRe = regexp.MustCompile("(?i)CONSTRAINT `([^`]+)` FOREIGN KEY")
+
+type c20RoCase struct {
+	Cfg     c20Cfg   `json:"cfg"`
+	Family  string   `json:"family"`
+	Values  []int    `json:"values"`
+	AutoAdd bool     `json:"autoAdd"`
+	Tables  []string `json:"tables,omitempty"`
+}
+
+func c20RoModels(fam string) []interface{} {
+	if fam == "graph" {
+		var out []interface{}
+		for _, n := range c20FamNames {
+			out = append(out, c20Fam[n])
+		}
+		return out
+	}
+	if f := c20FamilyByName(fam); f != nil {
+		return f.V2
+	}
+	return nil
+}
+
+// c20RoRun: one case on the real code and the op lists for the model
+func c20RoRun(c c20RoCase) (real map[string]interface{}, ops [][]interface{}, tables []string, err error) {
+	defer func() {
+		if p := recover(); p != nil {
+			err = fmt.Errorf("panic: %v", p)
+		}
+	}()
+	models := c20RoModels(c.Family)
+	db, rec := c20OpenCfg("c20ro_anon", c.Cfg)
+	if sq, e := db.DB(); e == nil {
+		defer sq.Close()
+	}
+	// warm schema cache: every model of the family is parsed before anything is read off (mirror folding depends on it)
+	byType := map[reflect.Type]string{}
+	var decls []map[string]interface{}
+	seen := map[*schema.Schema]bool{}
+	var queue []*schema.Schema
+	for _, m := range models {
+		st := &gorm.Statement{DB: db}
+		if e := st.Parse(m); e != nil {
+			return nil, nil, nil, e
+		}
+		queue = append(queue, st.Schema)
+	}
+	var vals []interface{}
+	var names []string
+	for _, i := range c.Values {
+		vals = append(vals, models[i%len(models)])
+	}
+	res := c20Handle(db, c.Cfg).Migrator().(sqlite.Migrator).ReorderModels(vals, c.AutoAdd)
+	for len(queue) > 0 {
+		s := queue[0]
+		queue = queue[1:]
+		if s == nil || seen[s] {
+			continue
+		}
+		seen[s] = true
+		byType[s.ModelType] = s.Table
+		var rn []string
+		for n := range s.Relationships.Relations {
+			rn = append(rn, n)
+		}
+		sort.Strings(rn)
+		rels := []interface{}{}
+		for _, n := range rn {
+			rel := s.Relationships.Relations[n]
+			d := map[string]interface{}{"kind": string(rel.Type), "target": rel.FieldSchema.Table, "ignore": rel.Field.IgnoreMigration, "con": nil, "join": nil}
+			if k := rel.ParseConstraint(); k != nil && k.Schema != nil && k.ReferenceSchema != nil {
+				d["con"] = []string{k.Name, k.Schema.Table, k.ReferenceSchema.Table}
+				queue = append(queue, k.ReferenceSchema, k.Schema)
+			}
+			if rel.JoinTable != nil {
+				d["join"] = rel.JoinTable.Table
+				queue = append(queue, rel.JoinTable)
+			}
+			queue = append(queue, rel.FieldSchema)
+			rels = append(rels, d)
+		}
+		decls = append(decls, map[string]interface{}{"table": s.Table, "rels": rels})
+	}
+	for _, v := range vals {
+		names = append(names, byType[reflect.TypeOf(v).Elem()])
+	}
+	var out []string
+	for _, v := range res {
+		t, ok := byType[reflect.TypeOf(v).Elem()]
+		if !ok {
+			t = "?" + reflect.TypeOf(v).String()
+		}
+		out = append(out, t)
+	}
+	sort.Strings(out)
+	real = map[string]interface{}{"reorder": nz(out)}
+	ops = append(ops, []interface{}{"mig.reorderopt", decls, names, c.AutoAdd, c.Cfg.DisableFK, c.Cfg.IgnoreRel})
+	if c.AutoAdd {
+		rec.Reset()
+		if e := c20Handle(db, c.Cfg).AutoMigrate(vals...); e != nil {
+			return nil, nil, nil, fmt.Errorf("AutoMigrate: %v", e)
+		}
+		created := map[string][]string{}
+		for _, sql := range c20SchemaStmts(rec.Snapshot()) {
+			if m := c20CreateRe.FindStringSubmatch(sql); m != nil {
+				fks := []string{}
+				for _, f := range c20FKNameRe.FindAllStringSubmatch(sql, -1) {
+					fks = append(fks, f[1])
+				}
+				sort.Strings(fks)
+				created[m[1]] = fks
+				tables = append(tables, m[1])
+			}
+		}
+		sort.Strings(tables)
+		real["created"] = nz(tables)
+		real["fks"] = created
+		ops = append(ops, []interface{}{"mig.fksopt", decls, tables, c.Cfg.DisableFK, c.Cfg.IgnoreRel})
+	}
+	return real, ops, tables, nil
+}
+
+func c20RoJudge(r *Result, c c20RoCase) {
+	real, ops, _, err := c20RoRun(c)
+	if err != nil {
+		r.H("reorderopt.skip", strings.SplitN(err.Error(), ":", 2)[0])
+		return
+	}
+	outs, err := AskLean(ops)
+	if err != nil {
+		r.Violate(Violation{Kind: "correspondence", Suite: "mig.reorderopt", Input: c, Note: err.Error()})
+		return
+	}
+	var mo []string
+	_ = jsonUnmarshal(outs[0], &mo)
+	sort.Strings(mo)
+	model := map[string]interface{}{"reorder": nz(mo)}
+	if len(outs) > 1 {
+		model["created"] = nz(mo)
+		var fk map[string][]string
+		_ = jsonUnmarshal(outs[1], &fk)
+		model["fks"] = fk
+	}
+	r.CorrCompared++
+	if canon(real) != canon(model) {
+		r.Violate(Violation{Kind: "correspondence", Suite: "mig.reorderopt", Input: c, Observed: real, Expected: model,
+			Note: "real ReorderModels / tables and FOREIGN KEY constraints created by AutoMigrate under the configuration vs Lean Gorm.Mig.reorderModelsOpt / fksOpt (sets)"})
+	}
+	r.H("reorderopt.added", fmt.Sprint(len(mo)-len(c20Uniq(c.Values, len(c20RoModels(c.Family))))))
+}
+
+func c20Uniq(xs []int, mod int) map[int]bool {
+	out := map[int]bool{}
+	for _, x := range xs {
+		out[x%mod] = true
+	}
+	return out
+}
+
+func c20TieReorderOpt(r *Result, rng *rand.Rand, tier string) {
+	if !c20Only("reorderopt") {
+		return
+	}
+	n := 400
+	if tier == "thorough" {
+		n = 6000
+	} else if tier == "search" {
+		n = 1500
+	}
+	fams := []string{"graph"}
+	for _, f := range c20Families {
+		fams = append(fams, f.Name)
+	}
+	for i := 0; i < n && !expired(); i++ {
+		c := c20RoCase{Family: fams[rng.Intn(len(fams))], AutoAdd: rng.Intn(5) > 0}
+		if i < 4*len(fams) { // every family under every switch combination, whatever the seed
+			c.Family = fams[i/4]
+			c.AutoAdd = true
+		}
+		c.Cfg.DisableFK, c.Cfg.IgnoreRel = i%2 == 1, i%4 >= 2
+		if i >= 4*len(fams) && rng.Intn(3) == 0 {
+			c.Cfg.Naming = []string{"prefix", "singular", "nolower", "replacer", "short", "mixed"}[rng.Intn(6)]
+		}
+		if rng.Intn(4) == 0 {
+			c.Cfg.Handle = []string{"session", "ctx", "newdb", "chain"}[rng.Intn(4)]
+		}
+		nm := len(c20RoModels(c.Family))
+		k := 1 + rng.Intn(3)
+		if i < 4*len(fams) {
+			k = 1
+		}
+		for j := 0; j < k; j++ {
+			c.Values = append(c.Values, rng.Intn(nm))
+		}
+		c20RoJudge(r, c)
+		r.Case("mig.reorderopt", canon(c), true)
+		r.H("reorderopt.cfg", fmt.Sprintf("disableFK=%v ignoreRel=%v autoAdd=%v", c.Cfg.DisableFK, c.Cfg.IgnoreRel, c.AutoAdd))
+		r.H("reorderopt.family", c.Family)
+	}
+}
+
+func init() {
+	register("C20", c20TieReorderOpt)
+	replayers["C20/mig.reorderopt"] = func(r *Result, input json.RawMessage) {
+		var c c20RoCase
+		if err := json.Unmarshal(input, &c); err != nil {
+			r.Note("bad replay input: %v", err)
+			return
+		}
+		c20RoJudge(r, c)
+	}
 }
